@@ -12,7 +12,12 @@ def gen_timer_seqs(seed, n):
     for i in range(n):
         P = r.choice([1, 1, 2, 2, 3, 4])
         T = r.choice([1, 2, 2, 3, 4, 5])
-        pattern = r.choice(["always", "never", "late", "stops", "token", "unsolicited", "pingcmd"])
+        pattern = r.choice(["always", "never", "late", "stops", "token", "unsolicited", "pingcmd", "lateok", "lateok_stops",
+                            "lateok_stops"])
+        if pattern.startswith("lateok") and r.random() < 0.8:
+            # answers that come after the NEXT ping but still within pong_timeout need pong_timeout > ping_timeout
+            P = r.choice([1, 1, 2])
+            T = P + r.choice([1, 2, 3])
         ops = ["connect 1 127.0.0.1", "line 1 " + esc("NICK a"), "line 1 " + esc("USER u 0 * :r")]
         t = 0
         horizon = r.choice([6, 9, 12, 16]) * 1000
@@ -27,7 +32,10 @@ def gen_timer_seqs(seed, n):
             # advance to just after the next ping, then maybe answer
             nxt = ((t - reg) // (P * 1000) + 1) * P * 1000 + reg
             delay = r.choice([100, 200, 500, 900]) if pattern != "late" else T * 1000 + r.choice([100, 500])
-            if pattern in ("always", "token", "late", "pingcmd") or (pattern == "stops" and answered < k_stop):
+            if pattern.startswith("lateok") and T > P:
+                delay = min(P * 1000 + r.choice([100, 400, 700]), T * 1000 - 100)
+            if pattern in ("always", "token", "late", "pingcmd", "lateok") or \
+                    (pattern in ("stops", "lateok_stops") and answered < k_stop):
                 d = nxt + delay - t
                 ops.append("advance %d" % d)
                 t += d
